@@ -95,6 +95,7 @@ type Path struct {
 	lockHeld  map[string]int
 	onceDone  map[string]bool
 	bounds    map[*Term]int
+	nonneg    map[*Term]bool // bignonneg.go
 	concreteChoices map[string]string
 	choiceNames []string
 	lastPanic *goPanic
